@@ -110,8 +110,31 @@ impl Out {
 	}
 }
 
+thread_local! {
+	static GUARDED: std::cell::Cell<u32> = const { std::cell::Cell::new(0) };
+}
+
+/// Panics inside guarded calls into the code under test are data and stay silent; a panic anywhere else
+/// is a bug of the harness and is printed.
 pub fn install_silent_panic_hook() {
-	std::panic::set_hook(Box::new(|_| {}));
+	std::panic::set_hook(Box::new(|info| {
+		if GUARDED.with(|g| g.get()) == 0 {
+			eprintln!("harness panic (not inside a guarded call): {}", info);
+		}
+	}));
+}
+
+struct GuardScope;
+impl GuardScope {
+	fn enter() -> GuardScope {
+		GUARDED.with(|g| g.set(g.get() + 1));
+		GuardScope
+	}
+}
+impl Drop for GuardScope {
+	fn drop(&mut self) {
+		GUARDED.with(|g| g.set(g.get().saturating_sub(1)));
+	}
 }
 
 /// Outcome of a guarded call into the code under test.
@@ -122,6 +145,7 @@ pub enum Outcome<T> {
 }
 
 pub fn guarded<T>(f: impl FnOnce() -> Result<T, rcgen::Error>) -> Outcome<T> {
+	let _scope = GuardScope::enter();
 	match catch_unwind(AssertUnwindSafe(f)) {
 		Ok(Ok(v)) => Outcome::Ok(v),
 		Ok(Err(e)) => Outcome::Err(err_variant(&e)),
@@ -139,6 +163,7 @@ pub fn guarded<T>(f: impl FnOnce() -> Result<T, rcgen::Error>) -> Outcome<T> {
 }
 
 pub fn guarded_any<T>(f: impl FnOnce() -> T) -> Result<T, String> {
+	let _scope = GuardScope::enter();
 	match catch_unwind(AssertUnwindSafe(f)) {
 		Ok(v) => Ok(v),
 		Err(p) => Err(if let Some(s) = p.downcast_ref::<&str>() {
